@@ -89,7 +89,7 @@ func c11Check(o *Oracle, c lineCase) (ok bool, kind, detail, resp string) {
 func init() {
 	stages["c11-search"] = func(ctx *Ctx, cnt func(q, t int) int, replay string) Result {
 		col := NewCollector("C11", "search", "random rectangles (on and off the vertex grid) × open polylines with ≥ 2 points (segments passing through without a vertex inside, running along an edge, touching corners, self-retracing excluded for the order check); result vertices within rect±1 and on the input line in input order, never closed up, and exact piece-wise coverage judged by the Lean oracle (inside the rectangle and > 2 from its boundary ⇔ covered); non-trivial = the line crosses the rectangle boundary (≥ 2 judged points)")
-		parallelFor(ctx, cnt(5000, 400000), true, col, func(o *Oracle, i int) {
+		parallelFor(ctx, cnt(30000, 400000), true, col, func(o *Oracle, i int) {
 			r := NewRng(ctx.Seed, "c11", i)
 			g := GenCfg{Grid: r.Range(3, 8), Unit: 10}
 			a, b := g.pt(r), g.pt(r)
